@@ -390,6 +390,9 @@ def classify_tsan(kind, s1, s2):
         return f.startswith(("lyht_", "_lyht", "lydict_", "dict_"))
 
     def table_top(s):
+        # lydict_insert[_zc] measures its argument (strlen) before it takes the lock: that read is not a table access
+        if len(s) >= 2 and s[0] == "strlen" and s[1] in ("lydict_insert", "lydict_insert_zc"):
+            s = s[2:]
         return any(table_fn(x) for x in s[:3])
 
     def lazy_cb(s):
